@@ -267,6 +267,8 @@ def expand_locals(fnode, expr, depth=4):
     class S(ast.NodeTransformer):
         def visit_Name(self, n):
             if isinstance(n.ctx, ast.Load) and n.id in defs and not isinstance(defs[n.id], (ast.Lambda,)):
+                if isinstance(defs[n.id], ast.IfExp) and not _BRANCHES[0]:
+                    return n        # a case split stays behind its name unless asked for (branch_locals)
                 return copy.deepcopy(defs[n.id])
             return n
     e = copy.deepcopy(expr)
